@@ -815,11 +815,12 @@ func (cx *c03ctx) exec(line string) {
 			cx.merges = rep
 		}
 	case "gm":
-		// GetMergeCells is an observation: it reports the normalised ranges of a copy of the list and leaves
-		// the worksheet (stored merge list included) as it was
+		// GetMergeCells reports the normalised ranges. Whether it also replaces the worksheet's own list
+		// (tree before the purity fix) or works on a copy is the code's business: the stored list is read back
+		// from the dump in both cases, and the model follows the extracted fact `getMergeCellsInPlace`.
+		// (That a read leaves the worksheet alone is C04's oracle.)
 		ps := cx.watch()
 		before := cx.observe(ps)
-		d0 := cx.dump()
 		var got []xl.MergeCell
 		st := c03call(func() error { var e error; got, e = cx.f.GetMergeCells(c03Sheet); return e })
 		var api []string
@@ -830,16 +831,16 @@ func (cx *c03ctx) exec(line string) {
 				rep = append(rep, [4]int{q[0], q[1], q[2], q[3]})
 			}
 		}
-		if st == "ok" {
+		okGm := st == "ok"
+		if okGm {
 			st = "gm " + strings.Join(api, ";")
 		}
 		res := withDump(st)
 		ln := emit(line, res)
-		if d1 := cx.dump(); d1 != d0 {
-			r.Fail("getter:gm-changes-worksheet", "GetMergeCells changed the stored worksheet (grid or merge list)", ln, cx.replay())
-		}
-		cx.frameWrite(ln, ps, before, nil, "gm")
-		if strings.HasPrefix(st, "gm ") {
+		_, stored := c03dumpMerges(res)
+		cx.frameMerges(ln, ps, before, cx.observe(ps), stored, "gm")
+		cx.frameStyles(ln, ps, "gm")
+		if okGm {
 			for _, m := range got {
 				want, _ := cx.f.GetCellValue(c03Sheet, m.GetStartAxis())
 				if m.GetCellValue() != want {
@@ -847,6 +848,12 @@ func (cx *c03ctx) exec(line string) {
 				}
 			}
 			cx.checkReported(ln, rep, nil)
+			if len(stored) == len(cx.merges) {
+				r.Stat("gm:stored-list-kept")
+			} else {
+				r.Stat("gm:stored-list-replaced")
+			}
+			cx.merges = stored
 		}
 	case "seq":
 		sp, c, ro, ok := c03decode(w[2])
